@@ -111,6 +111,21 @@ CHECKS = {
         units=[rapid("TestC12_History", 4000, 200000, 16, 16), rapid("TestC12_Finite", 1500, 60000)],
         min_share=dict(any={"end_transient_after_events": ["histories", 0.3], "client_stopped": ["histories", 0.03], "vb_ended_twice": ["histories", 0.2]}),
     ),
+    "C16": dict(
+        level="exploration",
+        rule="rapid histories (deliveries of all kinds, in/out-of-order acks, saves, rebalances to generated group shapes announced through the "
+             "real dynamic membership + real VBucketDiscovery) with scrape ops at any point: before the first open, between any two ops, while "
+             "the stream is closed inside a rebalance, at the end. Each scrape sets the server's high seqnos relative to the tracked positions "
+             "(-3,-1,0,+1,+2,+7,+1000 per vBucket) or makes the seqno query fail. Collect() output of the real metric collector is decoded "
+             "(client_model) and compared with the model: per-vBucket seq/start/end gauges, lag = max(0, high-tracked), total lag = sum, "
+             "deletion/expiration counters exact, mutation counter within [user, user+internal-key], member number, group size, vBucket count, "
+             "range, active streams, rebalance count; no foreign vBucket reported. non-trivial = a vBucket with high < tracked and a scrape after "
+             "a rebalance",
+        assumptions=HIST_ASSUME + ["'accepted' mutations are read conservatively: library-internal-key mutations may or may not be counted",
+                                   "GET /states/offset is served from the same GetOffsets() map that C04 checks at every step (HTTP layer not exercised in quick)"],
+        units=[rapid("TestC16_Metrics", 4000, 300000)],
+        min_share=dict(any={"high_below_tracked": ["histories", 0.3], "scrape_after_rebalance": ["histories", 0.2], "scrape_while_closed": ["histories", 0.1]}),
+    ),
     "C17": dict(
         level="exploration",
         rule="rapid: (a) config.Dcp with a generated subset (density itself drawn) of 46 options explicitly set to non-zero values from "
